@@ -505,17 +505,50 @@ def run_machine(draws, state, tier):
     for step in range(n_ops):
         if V:
             break
-        op = st.weighted((3, 3, 2, 2, 3, 2, 2 if entry.kind == "sdl" else 0),
-                         "op")
+        op = st.weighted((3, 3, 2, 2, 3, 2, 2 if entry.kind == "sdl" else 0,
+                          2 if len(live) > 1 else 0), "op")
         # 0 clone, 1 visibility, 2 camelcase, 3 chained, 4 extend, 5 use,
         # 6 schema directives (applied to a clone of the target)
         li = st.below(len(live), "target")
         src = live[li]
         opname = ("clone", "visibility", "camelcase", "chained", "extend",
-                  "use", "directives")[op]
+                  "use", "directives", "configure")[op]
         new = None
         hidden = None
         raised = None
+        if op == 7:
+            # configure a derived schema (register a resolver on it): no other
+            # live schema may notice
+            li = 1 + st.below(len(live) - 1, "derived")
+            tgt = live[li]
+            objs = sorted(n for n, t in tgt.schema.types.items()
+                          if isinstance(t, ObjectType) and t.fields
+                          and not n.startswith("__"))
+            tname = objs[st.below(len(objs), "cfg_type")]
+            fields = tgt.schema.types[tname].fields
+            fname = fields[st.below(len(fields), "cfg_field")].name
+            seq.append(("configure", li, (tname, fname)))
+            try:
+                tgt.schema.register_resolver(
+                    tname, fname, _mk("cfg:%s.%s@%d" % (tname, fname, step)),
+                    allow_override=True)
+            except GraphQLError:
+                res.count("op_refused:configure")
+            tgt.refresh()
+            for oi, other in enumerate(live):
+                if other is tgt:
+                    continue
+                d = _struct.diff(other.fp, _struct.describe(other.schema,
+                                                            identity=True))
+                if d:
+                    what = [p for p in d[0] if isinstance(p, str)]
+                    fail("source_modified",
+                         ("configure", what[0] if what else "?"),
+                         "registering a resolver on live[%d] (%s) changed "
+                         "live[%d] (%s) at %r" % (li, tgt.origin, oi,
+                                                  other.origin, d[0]))
+                    break
+            continue
         if op == 5:
             seq.append(("use", li))
             try:
